@@ -1,7 +1,9 @@
-(* C08 — conjugacy of the CG recurrences and finite termination, as pure linear algebra over a field:
-   sequences R (residuals), Z (preconditioned residuals), P (directions) satisfying the recurrences of the loop body
-   with exact quotients (no threshold fired).  ProofsExact.v instantiates them with the states of a run. *)
-From mathcomp Require Import all_ssreflect all_algebra.
+(* C08 — conjugacy of the CG recurrences, finite termination and the CG -> Lanczos conversion, as pure linear
+   algebra over a real closed field: sequences R (residuals), Z (preconditioned residuals), P (directions) and
+   coefficients a (alpha), b (beta) satisfying the recurrences of the loop body with exact quotients (no threshold
+   fired) for K steps.  ProofsExact.v instantiates them with the states of a run of the model. *)
+From mathcomp Require Import all_ssreflect all_algebra zify.
+From mathcomp Require Import ring.
 Require Import C08.ProofsEnergy.
 Set Implicit Arguments.
 Unset Strict Implicit.
@@ -9,30 +11,9 @@ Unset Printing Implicit Defensive.
 Import Order.Theory GRing.Theory Num.Theory.
 Local Open Scope ring_scope.
 
-Section Conjugacy.
+Section Algebra2.
 Variable F : rcfType.
 Variable n : nat.
-Variables (A M : 'M[F]_n).
-Hypothesis Asym : A^T = A.
-Hypothesis Msym : M^T = M.
-Variables (R Z P : nat -> 'cV[F]_n) (a b : nat -> F) (K : nat).
-
-Definition rz (k : nat) : F := sdot (R k) (Z k).
-Definition pAp (k : nat) : F := sdot (P k) (A *m P k).
-
-Hypothesis HZ : forall k, (k <= K)%N -> Z k = M *m R k.
-Hypothesis HP0 : P 0%N = Z 0%N.
-Hypothesis HR : forall k, (k < K)%N -> R k.+1 = R k - a k *: (A *m P k).
-Hypothesis HP : forall k, (k < K)%N -> P k.+1 = b k *: P k + Z k.+1.
-Hypothesis Ha : forall k, (k < K)%N -> a k * pAp k = rz k.
-Hypothesis Hb : forall k, (k < K)%N -> b k * rz k = rz k.+1.
-Hypothesis Ha0 : forall k, (k < K)%N -> a k != 0.
-
-Definition cj_inv (k : nat) : Prop :=
-  [/\ forall i, (i < k)%N -> sdot (R k) (P i) = 0,
-      forall i, (i < k)%N -> sdot (R k) (Z i) = 0,
-      forall i, (i < k)%N -> sdot (P k) (A *m P i) = 0 &
-      sdot (R k) (P k) = rz k].
 
 Lemma sdotBl (u v w : 'cV[F]_n) : sdot (u - v) w = sdot u w - sdot v w.
 Proof. by rewrite sdotDl sdotNl. Qed.
@@ -40,26 +21,101 @@ Proof. by rewrite sdotDl sdotNl. Qed.
 Lemma sdotBr (u v w : 'cV[F]_n) : sdot u (v - w) = sdot u v - sdot u w.
 Proof. by rewrite sdotDr sdotNr. Qed.
 
+Lemma sdot0r (u : 'cV[F]_n) : sdot u 0 = 0.
+Proof. by rewrite /sdot mulmx0 mxE. Qed.
+
+Lemma sdot0l (u : 'cV[F]_n) : sdot 0 u = 0.
+Proof. by rewrite sdotC sdot0r. Qed.
+
+Lemma sdot_sum (u v : 'cV[F]_n) : sdot u v = \sum_l u l 0 * v l 0.
+Proof. by rewrite /sdot mxE; apply: eq_bigr => l _; rewrite !mxE. Qed.
+
+Lemma sdot_suml (I : finType) (U : I -> 'cV[F]_n) (x : 'cV[F]_n) :
+  sdot (\sum_i U i) x = \sum_i sdot (U i) x.
+Proof.
+elim/big_ind2: _ => [|u1 u2 y1 y2 <- <-|i _] //; first exact: sdot0l.
+by rewrite sdotDl.
+Qed.
+
+Lemma sdot_sumr (I : finType) (U : I -> 'cV[F]_n) (x : 'cV[F]_n) :
+  sdot x (\sum_i U i) = \sum_i sdot x (U i).
+Proof. by rewrite sdotC sdot_suml; apply: eq_bigr => i _; rewrite sdotC. Qed.
+
+Lemma sdot_sq_ge0 (u : 'cV[F]_n) : 0 <= sdot u u.
+Proof. by rewrite sdot_sum; apply: sumr_ge0 => l _; rewrite -expr2 sqr_ge0. Qed.
+
+Lemma sdot_sq_gt0 (u : 'cV[F]_n) : u != 0 -> 0 < sdot u u.
+Proof.
+move=> u0; rewrite lt_def sdot_sq_ge0 andbT; apply: contra u0 => /eqP H0.
+apply/eqP/colP => l; rewrite [RHS]mxE.
+have := H0; rewrite sdot_sum => /eqP; rewrite psumr_eq0; last by move=> i _; rewrite -expr2 sqr_ge0.
+by move/allP => /(_ l (mem_index_enum _)) /=; rewrite -expr2 sqrf_eq0 => /eqP.
+Qed.
+
+End Algebra2.
+
+(* the recurrences of K exact CG steps (lines 64-74 / 250-281 and 31-46 of linear_cg.py when no safe division
+   fires and the column is not frozen):  z = M r,  p0 = z0,  r' = r - a A p,  p' = b p + z',
+   a = (r.z)/(p.Ap),  b = (r'.z')/(r.z),  with a != 0 *)
+Definition cg_rec (F : rcfType) (n : nat) (A M : 'M[F]_n) (R Z P : nat -> 'cV[F]_n) (a b : nat -> F) (K : nat)
+  : Prop :=
+  [/\ A^T = A, M^T = M, (forall k, (k <= K)%N -> Z k = M *m R k) & P 0%N = Z 0%N] /\
+  [/\ (forall k, (k < K)%N -> R k.+1 = R k - a k *: (A *m P k)),
+      (forall k, (k < K)%N -> P k.+1 = b k *: P k + Z k.+1),
+      (forall k, (k < K)%N -> a k * sdot (P k) (A *m P k) = sdot (R k) (Z k)),
+      (forall k, (k < K)%N -> b k * sdot (R k) (Z k) = sdot (R k.+1) (Z k.+1)) &
+      (forall k, (k < K)%N -> a k != 0)].
+
+Section Conjugacy.
+Variable F : rcfType.
+Variable n : nat.
+Variables (A M : 'M[F]_n).
+Variables (R Z P : nat -> 'cV[F]_n) (a b : nat -> F) (K : nat).
+Hypothesis Hrec : cg_rec A M R Z P a b K.
+
+Definition c_rz (k : nat) : F := sdot (R k) (Z k).
+Definition c_pAp (k : nat) : F := sdot (P k) (A *m P k).
+
+Let Asym : A^T = A. Proof. by case: Hrec => [[]]. Qed.
+Let Msym : M^T = M. Proof. by case: Hrec => [[]]. Qed.
+Let HZ : forall k, (k <= K)%N -> Z k = M *m R k. Proof. by case: Hrec => [[]]. Qed.
+Let HP0 : P 0%N = Z 0%N. Proof. by case: Hrec => [[]]. Qed.
+Let HR : forall k, (k < K)%N -> R k.+1 = R k - a k *: (A *m P k). Proof. by case: Hrec => [_ []]. Qed.
+Let HP : forall k, (k < K)%N -> P k.+1 = b k *: P k + Z k.+1. Proof. by case: Hrec => [_ []]. Qed.
+Let Ha : forall k, (k < K)%N -> a k * c_pAp k = c_rz k. Proof. by case: Hrec => [_ []]. Qed.
+Let Hb : forall k, (k < K)%N -> b k * c_rz k = c_rz k.+1. Proof. by case: Hrec => [_ []]. Qed.
+Let Ha0 : forall k, (k < K)%N -> a k != 0. Proof. by case: Hrec => [_ []]. Qed.
+
+Definition cj_inv (k : nat) : Prop :=
+  [/\ forall i, (i < k)%N -> sdot (R k) (P i) = 0,
+      forall i, (i < k)%N -> sdot (R k) (Z i) = 0,
+      forall i, (i < k)%N -> sdot (P k) (A *m P i) = 0 &
+      sdot (R k) (P k) = c_rz k].
+
 Lemma cj0 : cj_inv 0.
-Proof. by split => //; rewrite HP0 /rz. Qed.
+Proof. by split => //; rewrite HP0 /c_rz. Qed.
+
+Lemma Z_succ k : (k < K)%N -> Z k.+1 = P k.+1 - b k *: P k.
+Proof. by move=> hk; rewrite HP // addrAC subrr add0r. Qed.
 
 Lemma cj_step k : (k < K)%N -> cj_inv k -> cj_inv k.+1.
 Proof.
 move=> hk [Hc Ha_ Hb_ Hd].
 have HZk i : (0 < i <= k.+1)%N -> Z i = P i - b i.-1 *: P i.-1.
   case: i => [|i] //=; rewrite ltnS => hi.
-  by rewrite HP ?addrC ?addKr // (leq_ltn_trans hi).
+  by rewrite Z_succ // (leq_ltn_trans hi hk).
 (* (c) r_{k+1} . p_i = 0 for i <= k *)
 have Hc' i : (i < k.+1)%N -> sdot (R k.+1) (P i) = 0.
   rewrite ltnS leq_eqVlt => /orP [/eqP ->|hi]; rewrite HR // sdotBl sdotZl.
-    by rewrite Hd -(sdot_sym _ _ Asym) -/(pAp k) Ha // subrr.
+    by rewrite Hd -(sdot_sym _ _ Asym) -/(c_pAp k) Ha // subrr.
   by rewrite Hc // -(sdot_sym _ _ Asym) Hb_ // mulr0 subrr.
 (* (a) r_{k+1} . z_i = 0 for i <= k *)
 have Ha' i : (i < k.+1)%N -> sdot (R k.+1) (Z i) = 0.
   case: i => [|i] hi; first by rewrite -HP0 Hc'.
-  by rewrite HZk ?hi // sdotBr sdotZr !Hc' ?mulr0 ?subrr //=; apply: ltnW.
+  have hi' : (i < k.+1)%N by apply: ltnW.
+  by rewrite HZk ?(ltnW hi) // sdotBr sdotZr /= (Hc' _ hi) (Hc' _ hi') mulr0 subrr.
 (* (d) *)
-have Hd' : sdot (R k.+1) (P k.+1) = rz k.+1.
+have Hd' : sdot (R k.+1) (P k.+1) = c_rz k.+1.
   by rewrite HP // sdotDr sdotZr Hc' // mulr0 add0r.
 (* z_{k+1} . r_i = r_{k+1} . z_i *)
 have Hzr i : (i <= K)%N -> sdot (Z k.+1) (R i) = sdot (R k.+1) (Z i).
@@ -72,9 +128,9 @@ have Hai : a i * sdot (Z k.+1) (A *m P i) = sdot (Z k.+1) (R i) - sdot (Z k.+1) 
   by rewrite -sdotZr -sdotBr HR // opprB addrC subrK.
 apply: (mulfI (Ha0 hiK)); rewrite mulr0 mulrDr Hai !Hzr //; last exact: ltnW.
 move: hi; rewrite leq_eqVlt => /orP [/eqP Ei|hi].
-  rewrite Ei Ha' // sub0r -/(rz k.+1) mulrCA -/(pAp k) Ha // Hb // sdotC.
-  by rewrite -[sdot (Z k.+1) (R k.+1)]/(sdot (Z k.+1) (R k.+1)) sdotC subrr.
-by rewrite Hb_ // mulr0 mulr0 add0r !Ha' ?subrr // ltnS // ltnW.
+  by rewrite Ei Ha' // sub0r mulrCA -/(c_pAp k) Ha // Hb // -/(c_rz k.+1) subrr.
+have hi1 : (i.+1 < k.+1)%N by [].
+by rewrite Hb_ // !mulr0 add0r (Ha' _ hi1) Ha' ?subrr // ltnW.
 Qed.
 
 Lemma cj_all k : (k <= K)%N -> cj_inv k.
@@ -87,7 +143,394 @@ case/andP => hi hk; have [_ H _ _] := cj_all hk.
 by rewrite -HZ ?H //; apply: ltnW; apply: leq_trans hi hk.
 Qed.
 
+(* the search directions are mutually A-conjugate *)
 Lemma directions_conjugate i k : (i < k <= K)%N -> sdot (P k) (A *m P i) = 0.
 Proof. by case/andP => hi hk; have [_ _ H _] := cj_all hk; apply: H. Qed.
+
+(* the new residual is orthogonal to all previous directions (the Galerkin condition behind optimality) *)
+Lemma residual_orth_directions i k : (i < k <= K)%N -> sdot (R k) (P i) = 0.
+Proof. by case/andP => hi hk; have [H _ _ _] := cj_all hk; apply: H. Qed.
+
+Lemma ZR_orth i m : (i <= K)%N -> (m <= K)%N -> sdot (Z i) (R m) = if i == m then c_rz m else 0.
+Proof.
+move=> hi hm; case: (ltngtP i m) => [lt_im|lt_mi|->].
+- by have [_ H _ _] := cj_all hm; rewrite sdotC H.
+- by have [_ H _ _] := cj_all hi; rewrite (HZ hi) -(sdot_sym _ _ Msym) -(HZ hm) H.
+- by rewrite /c_rz sdotC.
+Qed.
+
+(* ---------------------------------------------------------------------------------------------- *)
+(* finite termination: after n regular steps the residual vanishes                                 *)
+Lemma residual_n_zero : (n <= K)%N -> (forall k, (k < n)%N -> c_rz k != 0) -> R n = 0.
+Proof.
+move=> hn Hnz.
+pose Rm : 'M[F]_n := \matrix_(i, k) R k i 0.
+have HK (i : 'I_n) : (i <= K)%N by apply: ltnW; apply: leq_trans (ltn_ord i) hn.
+have Hent (i k : 'I_n) : \sum_l Rm^T i l * (M *m Rm) l k = sdot (R i) (M *m R k).
+  rewrite sdot_sum; apply: eq_bigr => l _; rewrite !mxE; congr (_ * _).
+  by apply: eq_bigr => m _; rewrite !mxE.
+have HG : Rm^T *m (M *m Rm) = diag_mx (\row_k c_rz k).
+  apply/matrixP => i k; rewrite mxE Hent -HZ // sdotC ZR_orth // !mxE.
+  by rewrite -val_eqE /= eq_sym; case: (_ == _); rewrite ?mulr1n ?mulr0n.
+have : Rm^T *m (M *m Rm) \in unitmx.
+  rewrite HG unitmxE det_diag unitfE; apply/prodf_neq0 => k _.
+  by rewrite mxE Hnz.
+rewrite unitmx_mul => /andP [_ HU].
+have Hv : (M *m Rm)^T *m R n = 0.
+  apply/colP => k; rewrite [RHS]mxE.
+  have -> : ((M *m Rm)^T *m R n) k 0 = sdot (M *m R k) (R n).
+    rewrite sdot_sum mxE; apply: eq_bigr => l _; rewrite !mxE; congr (_ * _).
+    by apply: eq_bigr => m _; rewrite !mxE.
+  rewrite -HZ // ZR_orth //.
+  by rewrite ltn_eqF.
+have HU' : (M *m Rm)^T \in unitmx by rewrite unitmx_tr.
+by rewrite -[R n](mulKmx HU') Hv mulmx0.
+Qed.
+
+(* ---------------------------------------------------------------------------------------------- *)
+(* the three-term recurrence behind the CG -> Lanczos conversion                                    *)
+Lemma AP k : (k < K)%N -> A *m P k = (a k)^-1 *: (R k - R k.+1).
+Proof. by move=> hk; rewrite HR // opprB addrC subrK scalerA mulVf ?scale1r // Ha0. Qed.
+
+(* the diagonal entry k of the tridiagonal matrix:  1/a_k + b_{k-1}/a_{k-1} *)
+Definition tdiag (k : nat) : F := (a k)^-1 + (if k is k'.+1 then b k' / a k' else 0).
+(* the off-diagonal entry (k, k-1), k >= 1:  sqrt(b_{k-1})/a_{k-1} *)
+Definition toff (k : nat) : F := Num.sqrt (b k.-1) / a k.-1.
+Definition Rprev (k : nat) : 'cV[F]_n := if k is k'.+1 then (b k' / a k') *: R k' else 0.
+
+Lemma AZ k : (k < K)%N -> A *m Z k = tdiag k *: R k - (a k)^-1 *: R k.+1 - Rprev k.
+Proof.
+case: k => [|k] hk.
+  by rewrite -HP0 AP // /tdiag /Rprev addr0 subr0 scalerBr.
+have hk' : (k < K)%N by apply: ltnW.
+rewrite Z_succ // mulmxBr -scalemxAr !AP // /tdiag /Rprev.
+apply/colP => i; rewrite !mxE; move: (R k i 0) (R k.+1 i 0) (R k.+2 i 0) => x y z.
+by field; rewrite !Ha0.
+Qed.
+
+Lemma ZAZ i k : (i <= K)%N -> (k < K)%N ->
+  sdot (Z i) (A *m Z k) =
+  if i == k then tdiag k * c_rz k
+  else if i == k.+1 then - c_rz k.+1 / a k
+  else if i.+1 == k then - (b i / a i) * c_rz i else 0.
+Proof.
+move=> hi hk; rewrite AZ // !sdotBr !sdotZr !ZR_orth //; last exact: ltnW.
+have -> : sdot (Z i) (Rprev k) = if i.+1 == k then (b i / a i) * c_rz i else 0.
+  case: k hk => [|k] hk; rewrite /Rprev; first by rewrite sdot0r.
+  rewrite sdotZr ZR_orth //; last by apply: ltnW; apply: ltnW.
+  by rewrite eqSS; case: eqP => [->|_] //; rewrite mulr0.
+case: (eqVneq i k) => [->|nik].
+  have -> : (k == k.+1) = false by lia.
+  have -> : (k.+1 == k) = false by lia.
+  by rewrite mulr0 !subr0.
+case: (eqVneq i k.+1) => [->|nik1].
+  have -> : (k.+2 == k) = false by lia.
+  by rewrite mulr0 sub0r subr0 mulrC mulNr.
+by case: ifP => _; rewrite !mulr0 !subr0 ?sub0r ?mulNr.
+Qed.
+
+(* normalised residuals with alternating signs: the Lanczos vectors of A M in the M-inner product *)
+Definition cw (k : nat) : F := (-1) ^+ k / Num.sqrt (c_rz k).
+Definition W (k : nat) : 'cV[F]_n := cw k *: R k.
+
+Hypothesis Hpos : forall k, (k < K)%N -> 0 < c_rz k.
+
+Lemma MW k : (k <= K)%N -> M *m W k = cw k *: Z k.
+Proof. by move=> hk; rewrite /W -scalemxAr -HZ. Qed.
+
+Lemma sgn_sq k : ((-1) ^+ k : F) * (-1) ^+ k = 1.
+Proof. by rewrite -expr2 exprAC sqrrN !expr1n. Qed.
+
+Lemma sqrt_rz k : (k < K)%N -> Num.sqrt (c_rz k) * Num.sqrt (c_rz k) = c_rz k /\ Num.sqrt (c_rz k) != 0.
+Proof.
+move=> hk; have H := Hpos hk; split; first by rewrite -expr2 sqr_sqrtr // ltW.
+by rewrite gt_eqF // sqrtr_gt0.
+Qed.
+
+Lemma lanczos_orthonormal i k : (i < K)%N -> (k < K)%N -> sdot (W i) (M *m W k) = (i == k)%:R.
+Proof.
+move=> hi hk; rewrite MW ?(ltnW hk) // /W sdotZl sdotZr sdotC ZR_orth ?(ltnW hi) ?(ltnW hk) //.
+rewrite eq_sym; case: (eqVneq i k) => [->|_]; last by rewrite !mulr0.
+have [Hq Hq0] := sqrt_rz hk; rewrite /cw.
+move: (sgn_sq k) Hq Hq0; move: ((-1) ^+ k) (Num.sqrt _) => s q Hs Hq Hq0.
+rewrite -Hq [LHS](_ : _ = s * s); first by rewrite Hs.
+by field.
+Qed.
+
+Lemma b_pos k : (k.+1 < K)%N -> 0 < b k.
+Proof.
+move=> hk; have hk' : (k < K)%N by apply: ltnW.
+have := Hpos hk; rewrite -Hb // pmulr_lgt0 //; exact: Hpos.
+Qed.
+
+(* T = W^T (M A M) W on and above the diagonal (the form is symmetric, see lanczos_T_sym) *)
+Lemma lanczos_T i k : (i <= k)%N -> (k < K)%N ->
+  sdot (M *m W i) (A *m (M *m W k)) = if i == k then tdiag k else if i.+1 == k then toff k else 0.
+Proof.
+move=> hik hk; have hi : (i < K)%N by apply: leq_ltn_trans hik hk.
+rewrite !MW ?(ltnW hk) ?(ltnW hi) // -scalemxAr sdotZl sdotZr ZAZ ?(ltnW hi) //.
+case: (eqVneq i k) => [->|nik].
+  have [Hq Hq0] := sqrt_rz hk; rewrite /cw.
+  move: (sgn_sq k) Hq Hq0; move: ((-1) ^+ k) (Num.sqrt _) (tdiag k) => s q t Hs Hq Hq0.
+  rewrite -Hq [LHS](_ : _ = s * s * t); first by rewrite Hs mul1r.
+  by field.
+have -> : (i == k.+1) = false by lia.
+case: (eqVneq i.+1 k) => [Ek|_]; last by rewrite !mulr0.
+have hi1 : (i.+1 < K)%N by rewrite Ek.
+have [Hq Hq0] := sqrt_rz hi.
+have Hbp := b_pos hi1.
+have Hqb : Num.sqrt (b i) * Num.sqrt (b i) = b i by rewrite -expr2 sqr_sqrtr // ltW.
+have Hqb0 : Num.sqrt (b i) != 0 by rewrite gt_eqF // sqrtr_gt0.
+have Hq1 : Num.sqrt (c_rz i.+1) = Num.sqrt (b i) * Num.sqrt (c_rz i).
+  by rewrite -Hb // sqrtrM // ltW.
+rewrite /toff -Ek /= /cw Hq1 exprS.
+move: (sgn_sq i) Hq Hq0 Hqb Hqb0 (Ha0 hi).
+move: ((-1) ^+ i) (Num.sqrt (c_rz i)) (Num.sqrt (b i)) (a i) => s q qb ai Hs Hq Hq0 Hqb Hqb0 Hai.
+rewrite -Hq -Hqb [LHS](_ : _ = s * s * (qb / ai)); first by rewrite Hs mul1r.
+by field; rewrite Hai Hqb0 Hq0.
+Qed.
+
+Lemma lanczos_T_sym i k : sdot (M *m W i) (A *m (M *m W k)) = sdot (M *m W k) (A *m (M *m W i)).
+Proof. by rewrite (sdot_sym _ _ Asym) sdotC. Qed.
+
+(* the Lanczos three-term recurrence  (A M) w_k = t_{k+1,k} w_{k+1} + t_{k,k} w_k + t_{k,k-1} w_{k-1} *)
+Definition Wprev (k : nat) : 'cV[F]_n := if k is k'.+1 then toff k *: W k' else 0.
+
+Lemma sqrt_b k : (k.+1 < K)%N ->
+  [/\ Num.sqrt (b k) * Num.sqrt (b k) = b k, Num.sqrt (b k) != 0 &
+      Num.sqrt (c_rz k.+1) = Num.sqrt (b k) * Num.sqrt (c_rz k)].
+Proof.
+move=> hk1; have hk : (k < K)%N by apply: ltnW.
+have Hbp := b_pos hk1; split.
+- by rewrite -expr2 sqr_sqrtr // ltW.
+- by rewrite gt_eqF // sqrtr_gt0.
+- by rewrite -Hb // sqrtrM // ltW.
+Qed.
+
+Lemma lanczos_recurrence k : (k.+1 < K)%N ->
+  A *m (M *m W k) = toff k.+1 *: W k.+1 + tdiag k *: W k + Wprev k.
+Proof.
+move=> hk1; have hk : (k < K)%N by apply: ltnW.
+rewrite MW ?(ltnW hk) // -scalemxAr AZ // /W /toff [k.+1.-1]/=.
+have [Hq Hq0] := sqrt_rz hk.
+have [Hqb Hqb0 Hq1] := sqrt_b hk1.
+case: k hk1 hk Hq Hq0 Hqb Hqb0 Hq1 => [|k] hk1 hk Hq Hq0 Hqb Hqb0 Hq1.
+  rewrite /Wprev /Rprev /tdiag /cw Hq1 !addr0 subr0 expr1 expr0.
+  apply/colP => i; rewrite !mxE; move: (R 0%N i 0) (R 1%N i 0) (Ha0 hk) => x y.
+  move: (Num.sqrt (c_rz 0)) (Num.sqrt (b 0%N)) (a 0%N) Hq0 Hqb0 => q qb a0 Hq0 Hqb0 Ha00.
+  by field; rewrite Ha00 Hqb0 Hq0.
+have hk' : (k < K)%N by apply: ltnW.
+have [Hq' Hq0'] := sqrt_rz hk'.
+have [Hqb' Hqb0' Hq1'] := sqrt_b hk.
+rewrite /Wprev /W /Rprev /tdiag /toff [k.+1.-1]/= /cw Hq1 Hq1' !exprS.
+move: Hqb' Hqb0'; move: (Num.sqrt (b k)) => qb Hqb' Hqb0'; rewrite -Hqb'.
+apply/colP => i; rewrite !mxE; move: (R k i 0) (R k.+1 i 0) (R k.+2 i 0) (Ha0 hk) (Ha0 hk') => x y z.
+move: ((-1) ^+ k) (Num.sqrt (c_rz k)) (Num.sqrt (b k.+1)) (a k) (a k.+1) Hq0' Hqb0
+  => s q qb1 a0 a1 Hq0' Hqb0 Ha1 Ha00.
+by field; rewrite Ha1 Ha00 Hqb0 Hqb0' Hq0'.
+Qed.
+
+(* ---------------------------------------------------------------------------------------------- *)
+(* Rayleigh quotients: y^T T y = (M v)^T A (M v) and y^T y = v^T M v for v = sum_k y_k w_k; hence the eigenvalues
+   of T (Ritz values) lie between any Rayleigh bounds of A in the M-inner product                        *)
+Section Ritz.
+Variable m : nat.
+Hypothesis hm : (m <= K)%N.
+Let ltKm (i : 'I_m) : (i < K)%N. Proof. exact: leq_trans (ltn_ord i) hm. Qed.
+
+Definition Tk : 'M[F]_m := \matrix_(i, k) sdot (M *m W i) (A *m (M *m W k)).
+Definition comb (y : 'cV[F]_m) : 'cV[F]_n := \sum_(k < m) y k 0 *: W k.
+
+Lemma comb_M (y : 'cV[F]_m) : sdot (comb y) (M *m comb y) = sdot y y.
+Proof.
+rewrite /comb mulmx_sumr sdot_suml [RHS]sdot_sum; apply: eq_bigr => i _.
+rewrite sdot_sumr (bigD1 i) //= big1 ?addr0 => [|k ki].
+  by rewrite -scalemxAr sdotZl sdotZr (lanczos_orthonormal (ltKm i) (ltKm i)) eqxx !mulr1.
+rewrite -scalemxAr sdotZl sdotZr (lanczos_orthonormal (ltKm i) (ltKm k)).
+by rewrite -val_eqE /= eq_sym in ki; rewrite (negbTE ki) !mulr0.
+Qed.
+
+Lemma comb_T (y : 'cV[F]_m) : sdot (M *m comb y) (A *m (M *m comb y)) = sdot y (Tk *m y).
+Proof.
+rewrite /comb !mulmx_sumr sdot_suml [RHS]sdot_sum; apply: eq_bigr => i _.
+rewrite sdot_sumr mxE mulr_sumr; apply: eq_bigr => k _.
+rewrite [Tk i k]mxE; move: (W i) (W k) => wi wk.
+by rewrite -!scalemxAr sdotZl sdotZr; congr (_ * _); rewrite mulrC.
+Qed.
+
+Lemma ritz_lower (lo : F) :
+  (forall v : 'cV[F]_n, lo * sdot v (M *m v) <= sdot (M *m v) (A *m (M *m v))) ->
+  forall (y : 'cV[F]_m) (th : F), Tk *m y = th *: y -> y != 0 -> lo <= th.
+Proof.
+move=> Hlo y th Hy y0; have := Hlo (comb y); rewrite comb_M comb_T Hy sdotZr.
+by rewrite ler_pmul2r // sdot_sq_gt0.
+Qed.
+
+Lemma ritz_upper (hi : F) :
+  (forall v : 'cV[F]_n, sdot (M *m v) (A *m (M *m v)) <= hi * sdot v (M *m v)) ->
+  forall (y : 'cV[F]_m) (th : F), Tk *m y = th *: y -> y != 0 -> th <= hi.
+Proof.
+move=> Hhi y th Hy y0; have := Hhi (comb y); rewrite comb_M comb_T Hy sdotZr.
+by rewrite ler_pmul2r // sdot_sq_gt0.
+Qed.
+
+End Ritz.
+
+(* ---------------------------------------------------------------------------------------------- *)
+(* optimality: x_k minimises the A-norm of the error over  x_0 + span{p_0 .. p_{k-1}}  (A positive semi-definite) *)
+Variables (X : nat -> 'cV[F]_n) (xs : 'cV[F]_n).
+Hypothesis HX : forall k, (k < K)%N -> X k.+1 = X k + a k *: P k.
+Hypothesis HRX : forall k, (k <= K)%N -> R k = A *m (xs - X k).
+Hypothesis Apsd : forall v : 'cV[F]_n, 0 <= sdot v (A *m v).
+
+Lemma X_sum k : (k <= K)%N -> X k = X 0%N + \sum_(i < k) a i *: P i.
+Proof.
+elim: k => [|k IH] hk; first by rewrite big_ord0 addr0.
+by rewrite HX // IH ?(ltnW hk) // big_ord_recr /= addrA.
+Qed.
+
+Lemma sdot_span k (c : 'I_k -> F) (v : 'cV[F]_n) :
+  (forall i : 'I_k, sdot (P i) v = 0) -> sdot (\sum_(i < k) c i *: P i) v = 0.
+Proof.
+move=> H; elim/big_ind: _ => [|u w Hu Hw|i _]; first exact: sdot0l.
+  by rewrite sdotDl Hu Hw addr0.
+by rewrite sdotZl H mulr0.
+Qed.
+
+Lemma cg_optimal k (c : 'I_k -> F) : (k <= K)%N ->
+  energy A xs (X k) <= energy A xs (X 0%N + \sum_(i < k) c i *: P i).
+Proof.
+move=> hk.
+pose d := \sum_(i < k) (c i - a i) *: P i.
+have -> : X 0%N + \sum_(i < k) c i *: P i = X k + 1 *: d.
+  rewrite scale1r [X k](X_sum hk) -addrA -big_split /=; congr (_ + _); apply: eq_bigr => i _.
+  by rewrite -scalerDl addrC subrK.
+have Hd0 : sdot d (R k) = 0.
+  by apply: sdot_span => i; rewrite sdotC residual_orth_directions // ltn_ord.
+by rewrite energy_update // -HRX // Hd0 mulr0 subr0 expr1n mul1r ler_addl Apsd.
+Qed.
+
+(* ---------------------------------------------------------------------------------------------- *)
+(* ... and that span contains the Krylov space of M A started at z_0:  x_k is optimal over
+   x_0 + span{z_0, (M A) z_0, .., (M A)^(k-1) z_0}                                                   *)
+Definition Sp (k : nat) : 'M[F]_(k, n) := \matrix_(i < k, l < n) P i l 0.
+
+Lemma Sp_row k (i : 'I_k) : row i (Sp k) = (P i)^T.
+Proof. by apply/rowP => l; rewrite !mxE. Qed.
+
+Lemma P_in_span i k : (i < k)%N -> ((P i)^T <= Sp k)%MS.
+Proof. by move=> hi; rewrite -(Sp_row (Ordinal hi)); apply: row_sub. Qed.
+
+Lemma span_le k k' : (k <= k')%N -> (Sp k <= Sp k')%MS.
+Proof.
+move=> hk; apply/row_subP => i; rewrite Sp_row; apply: P_in_span.
+exact: leq_trans (ltn_ord i) hk.
+Qed.
+
+Lemma in_span_sum k (d : 'cV[F]_n) : (d^T <= Sp k)%MS -> exists c : 'I_k -> F, d = \sum_(i < k) c i *: P i.
+Proof.
+case/submxP => D HD; exists (fun i => D 0 i); apply/colP => l.
+have := congr1 (fun X : 'rV[F]_n => X 0 l) HD; rewrite !mxE => ->.
+by rewrite summxE; apply: eq_bigr => i _; rewrite !mxE.
+Qed.
+
+Lemma subB_span k (v w : 'cV[F]_n) (c : F) :
+  (v^T <= Sp k)%MS -> (w^T <= Sp k)%MS -> ((v - c *: w)^T <= Sp k)%MS.
+Proof.
+move=> Hv Hw; rewrite linearB linearZ /= -scaleNr.
+by apply: addmx_sub => //; apply: scalemx_sub.
+Qed.
+
+Lemma Z_in_span i : (i <= K)%N -> ((Z i)^T <= Sp i.+1)%MS.
+Proof.
+case: i => [|i] hi; first by rewrite -HP0; apply: P_in_span.
+rewrite Z_succ //; apply: subB_span; first exact: P_in_span.
+by apply: P_in_span; apply: ltnW.
+Qed.
+
+Lemma MAP_in_span i : (i < K)%N -> ((M *m (A *m P i))^T <= Sp i.+2)%MS.
+Proof.
+move=> hi; rewrite AP // -scalemxAr mulmxBr -!HZ ?(ltnW hi) // linearZ /=; apply: scalemx_sub.
+rewrite -[Z i.+1]scale1r; apply: subB_span; last exact: Z_in_span.
+by apply: submx_trans (Z_in_span (ltnW hi)) _; apply: span_le.
+Qed.
+
+Lemma MA_span k (v : 'cV[F]_n) : (k <= K)%N -> (v^T <= Sp k)%MS -> ((M *m (A *m v))^T <= Sp k.+1)%MS.
+Proof.
+move=> hk /in_span_sum [c ->].
+rewrite !mulmx_sumr linear_sum /=; apply: summx_sub => i _.
+rewrite -!scalemxAr linearZ /=; apply: scalemx_sub.
+apply: submx_trans (MAP_in_span _) (span_le _); first exact: leq_trans (ltn_ord i) hk.
+by rewrite ltnS ltn_ord.
+Qed.
+
+(* (M A)^i z_0 *)
+Definition Kry (i : nat) : 'cV[F]_n := iter i (fun v => M *m (A *m v)) (Z 0%N).
+
+Lemma kry_in_span i : (i <= K)%N -> ((Kry i)^T <= Sp i.+1)%MS.
+Proof.
+elim: i => [|i IH] hi; first by rewrite /Kry /= -HP0; apply: P_in_span.
+by rewrite /Kry iterS -/(Kry i); apply: MA_span => //; apply: IH; apply: ltnW.
+Qed.
+
+Lemma cg_optimal_krylov k (c : 'I_k -> F) : (k <= K)%N ->
+  energy A xs (X k) <= energy A xs (X 0%N + \sum_(i < k) c i *: Kry i).
+Proof.
+move=> hk.
+have : ((\sum_(i < k) c i *: Kry i)^T <= Sp k)%MS.
+  rewrite linear_sum /=; apply: summx_sub => i _; rewrite linearZ /=; apply: scalemx_sub.
+  apply: submx_trans (kry_in_span _) (span_le _); last exact: ltn_ord.
+  by apply: ltnW; apply: leq_trans (ltn_ord i) hk.
+by case/in_span_sum => c' ->; apply: cg_optimal.
+Qed.
+
+(* ---------------------------------------------------------------------------------------------- *)
+(* full dimension (n regular steps): the Lanczos vectors are a basis and the moments of T are those of A M:
+   (T^p)[i,k] = (M w_i)^T (A M)^p w_k ;  for i = k = 0 this is  e1^T T^p e1 = z^T Ahat^p z                *)
+Hypothesis hKn : (n <= K)%N.
+
+Definition Wm : 'M[F]_n := \matrix_(l, k) W k l 0.
+Definition Tm : 'M[F]_n := \matrix_(i, k) sdot (M *m W i) (A *m (M *m W k)).
+
+Let ltK (i : 'I_n) : (i < K)%N. Proof. exact: leq_trans (ltn_ord i) hKn. Qed.
+
+Lemma mul_Wm_col (B : 'M[F]_n) (k : 'I_n) l : (B *m Wm) l k = (B *m W k) l 0.
+Proof. by rewrite !mxE; apply: eq_bigr => m _; rewrite !mxE. Qed.
+
+Lemma WmT_mul (v : 'cV[F]_n) (m : 'I_n) : (Wm^T *m v) m 0 = sdot (W m) v.
+Proof. by rewrite sdot_sum mxE; apply: eq_bigr => l _; rewrite !mxE. Qed.
+
+Lemma Wm_orth : Wm^T *m (M *m Wm) = 1%:M.
+Proof.
+apply/matrixP => i k; rewrite [RHS]mxE -val_eqE /= -(lanczos_orthonormal (ltK i) (ltK k)).
+rewrite sdot_sum mxE; apply: eq_bigr => l _; rewrite mul_Wm_col; congr (_ * _).
+by rewrite !mxE.
+Qed.
+
+Lemma Wm_complete : Wm *m (Wm^T *m M) = 1%:M.
+Proof. by apply: mulmx1C; rewrite -mulmxA Wm_orth. Qed.
+
+Lemma Wm_expand (v : 'cV[F]_n) : v = \sum_(m < n) sdot (M *m W m) v *: W m.
+Proof.
+rewrite -[LHS]mul1mx -Wm_complete -!mulmxA.
+apply/colP => l; rewrite mxE summxE; apply: eq_bigr => m _.
+by rewrite WmT_mul (sdot_sym _ _ Msym) !mxE mulrC.
+Qed.
+
+Lemma Tm_pow p (i k : 'I_n) :
+  (iter p (mulmx Tm) 1%:M) i k = sdot (M *m W i) (iter p (fun v => A *m (M *m v)) (W k)).
+Proof.
+elim: p i k => [|p IH] i k.
+  rewrite /= mxE -(sdot_sym _ _ Msym) (lanczos_orthonormal (ltK i) (ltK k)).
+  by rewrite -val_eqE.
+rewrite !iterS mxE; set v := iter p _ (W k).
+rewrite [in RHS](Wm_expand v) !mulmx_sumr.
+have -> : sdot (M *m W i) (\sum_(m < n) A *m (M *m (sdot (M *m W m) v *: W m)))
+        = \sum_(m < n) sdot (M *m W m) v * sdot (M *m W i) (A *m (M *m W m)).
+  elim/big_ind2: _ => [|x1 x2 y1 y2 <- <-|m _]; first exact: sdot0r.
+    by rewrite sdotDr.
+  by rewrite -!scalemxAr sdotZr.
+by apply: eq_bigr => m _; rewrite IH mxE mulrC.
+Qed.
 
 End Conjugacy.
